@@ -55,6 +55,9 @@ def slices(tier, rng):
     out.append(mk('k3-nf1-ps4', 3, 4, 1, [0, 1, 2, 4, 5, 8] if tier == 'quick' else sc4, [1] if tier == 'quick' else [0, 1]))
     out.append(mk('k2-nf1-ps8', 2, 8, 1, sc8, [0, 1, 2]))
     out.append(mk('k2-nf1-enum-ps4', 2, 4, 1, [0, 3, 7, 5], [0]))
+    # the two modules import each other's types by full path (cross-module pointer cycles through type imports)
+    out.append(mk('k2-nf1-typeimports-ps4', 2, 4, 1, [0, 1, 2, 3, 5], [4, 5]))
+    out.append(mk('k3-nf1-typeimports-ps4', 3, 4, 1, [1, 2, 5], [4]))
     # a ring of five types in two modules: T_i has one field that is a scalar, T_{i+1} by value, a pointer to it, an array of it, or an
     # undefined name — by-value chains of depth 1..5, the by-value 5-cycle, pointer cycles of every length up to 5
     def ring(a, k=5):
@@ -226,7 +229,8 @@ def describe(template, args):
                 '  pub enum E: %s { A }\n  #[address(128)] pub extern ev: %s;') % (
                     a[0], ' use n;' if a[1] else '', t(2), t(4), (' -> ' + t(5)) if a[5] != 7 else '', t(6), (' -> ' + t(7)) if a[7] != 7 else '', t(3), t(8))
     k = a[1]
-    out = ['// pointer size %d, definition rotation / module order %d; modules m and n import each other; m also defines enum E: u32' % (a[0], a[2])]
+    out = ['// pointer size %d, definition rotation / module order %d; modules m and n import each other%s; m also defines enum E: u32' % (
+        a[0], a[2], ' — every type by its full path (`use n::T1;` ...), not the module' if a[2] >= 4 else '')]
     for i in range(min(k, 5)):
         b = 3 + 7 * i
         if b + 7 > len(a): break
